@@ -188,8 +188,11 @@ CHECKS["C02"] = {
             "binary64 value of the decimal token, blank alternate locations redistributed, metadata from the cell / symmetry / matrix / NCS items. "
             "The specification is a function of the document alone, so every layout has the same expected result. The reader model (lexer + parser, "
             "shared with C06) is proved to take every legal spelling for its value (white space and comments skipped, quoted strings and text "
-            "fields give their content, trimmed on use), never to substitute a number, and to reject at every level once an InvalidatingError is "
-            "recorded. A grammar-directed writer renders each document in several layouts (column permutations and subsets, foreign columns, every "
+            "fields give their content, trimmed on use), to invert the printer on whole constructs - for every sequence of values in any legal "
+            "spelling separated by any white space and comments the value loop reads back exactly the values, a printed loop is read back as its "
+            "header names and its values in rows, a printed single item as its name and value (Proofs/C02seq.v) -, to read the atom rows through "
+            "the column names only (any column order, foreign columns), to ignore foreign items, loops and frames, never to substitute a number, "
+            "and to reject at every level once an InvalidatingError is recorded. A grammar-directed writer renders each document in several layouts (column permutations and subsets, foreign columns, every "
             "spelling, comments / blank lines / CRLF, foreign items, loops, text fields and save frames anywhere) and the crate's reader is compared "
             "with the specification (property) and with the reader model (correspondence); single-token corruptions must be rejected.",
     "design_ref": "DESIGN.md section 6 C02",
